@@ -41,7 +41,7 @@ from simlib import JOBS, command_text
 
 HERE = Path(__file__).resolve().parent
 RUNNER = str(HERE / "c02_runner.py")
-PARTS = ["environment", "components", "logs", "responses"]
+PARTS = ["environment", "components", "logs", "responses", "api"]
 
 
 # ====================================================================== static inventory of shared state
